@@ -115,7 +115,7 @@ def run(tier: str) -> int:
     ck.cov["rule"] = ("Expr.tla: every operator x ordered pair over a 29-value pool (ints, decimals, bools, nil, undefined, strings, lists, "
                       "dicts, ranges, empty, blank), truthiness of every value in every carrier, and every and/or/not tree of depth<=%d "
                       "over 3 atoms x all valuations, printed minimally and fully parenthesised; non-trivial = the rules fix the outcome (not Unspec)"
-                      % (2 if tier == "quick" else 3))
+                      % 2)
     r = run_tlc("Expr", f"cfg/Expr_{tier}.cfg", workers=1, timeout=3000)
     ck.tlc("Expr_" + tier, r)
     if r.violated:
